@@ -48,6 +48,9 @@ class ConcCx:
     def pyint(self, name, lo=None, hi=None):
         return self._get(name, int)
 
+    def fp(self, name, lo=None, hi=None):
+        return float(self.vals[name])
+
     def bool(self, name):
         import numpy as np
 
